@@ -93,7 +93,7 @@ func schemas() []schema {
 				continue
 			}
 			fd := corpus.Build(spec, rt)
-			s := schema{id: string(rt) + "/" + spec.Name, rt: rt, file: spec.Name, fds: []*descriptorpb.FileDescriptorProto{fd}, gen: fd.GetName(), corpus: true, syntax: spec.Syntax, compile: true}
+			s := schema{id: string(rt) + "/" + spec.Name, rt: rt, file: spec.Name, fds: corpus.BuildWithDeps(spec, rt), gen: fd.GetName(), corpus: true, syntax: spec.Syntax, compile: true}
 			countMsgs(fd.MessageType, "", &s.msgs)
 			out = append(out, s)
 		}
